@@ -178,7 +178,7 @@ class Gen:
         if r < 0.8:
             return self.rc(self.rng.choice(SYMS))
         if r < 0.9:
-            return "'%s'" % self.rng.choice('abcxyzABCXYZ0189')
+            return "'%s'" % self.rng.choice('abcxyzABCXYZ0189=,;(')
         return '%d+%d' % (self.rng.randrange(0, 30), self.rng.randrange(0, 30))
 
     def cnt_arg(self, lo=0, hi=5):
@@ -300,7 +300,10 @@ class Gen:
                     self.feat.add('param-in-string')
                     out.append('\t%s\t"<%s>"' % (self.bop, self.instr(p.name)))
                     continue
-                out.append('\t%s\t"%s"' % (self.bop, rng.choice(['zq', 'Zq9', 'zzz'])))
+                lit = rng.choice(['zq', 'Zq9', 'zzz', 'z\tq', 'Z q\t', 'z\xe4\xffq;z'])
+                if '\t' in lit:
+                    self.feat.add('tab-in-string')      # a body is inserted as it is written, control characters included
+                out.append('\t%s\t"%s"' % (self.bop, lit))
                 continue
             ops = [self.operand(params, visible) for _ in range(rng.randrange(1, 5))]
             out.append(self.byte_stmt(ops))
@@ -374,8 +377,33 @@ class Gen:
                     lines += self.guarded(rng.choice(sp), visible)
                 else:
                     lines += self.data_lines(params, visible)
+            elif r < 0.70:
+                lines += self.if_wrapped(depth, params, visible, ctx)
             else:
                 lines += self.construct(depth + 1, params, visible, ctx)
+        return lines
+
+    def if_wrapped(self, depth, params, visible, ctx):
+        """a construct inside IF ... [ELSE ...] ENDIF: the conditional stack of the caller must survive
+        the expansion (and an EXITM inside it); a construct in the untaken branch is skipped as a whole"""
+        rng = self.rng
+        truth = rng.random() < 0.65
+        cond = rng.choice(['1', 'k0', '2>1', '"A"="A"', 'k1=2']) if truth else rng.choice(['0', '1>2', '"A"="B"', 'k1=3'])
+        dead = dict(ctx)
+        dead.update(dead=True, labels_ok=bool(ctx.get('private')), all_global=False)
+        live = ctx if truth else dead
+        self.feat.add('construct-in-if' if truth else 'construct-in-untaken-if')
+        lines = ['\t%s\t%s' % (self.kw('if'), cond)]
+        lines += self.construct(depth + 1, params, visible, live)
+        if rng.random() < 0.4:
+            lines.append('\t%s' % self.kw('else'))
+            other = dead if truth else ctx
+            if rng.random() < 0.5:
+                lines += self.construct(depth + 1, params, visible, other)
+                self.feat.add('construct-in-else')
+            else:
+                lines += self.data_lines(params, visible, 1)
+        lines.append('\t%s' % self.kw('endif'))
         return lines
 
     def sub_ctx(self, ctx, private, mult):
@@ -451,7 +479,10 @@ class Gen:
             cnt_txt, cnt = self.rc(rng.choice(cp).name), 5
         else:
             r = rng.random()
-            if r < 0.15:
+            if r < 0.05:
+                cnt_txt, cnt = rng.choice(['0-1', '0-3', '2-5']), 0      # "equal to or smaller than 0: no expansion at all"
+                self.feat.add('rept-negative-count')
+            elif r < 0.15:
                 cnt_txt, cnt = '0', 0
             elif r < 0.85:
                 cnt_txt, cnt = self.cnt_arg(0, 6)
@@ -595,15 +626,39 @@ class Gen:
         lines.append('\t%s' % self.kw('endm'))
         return lines
 
+    def sub_include(self):
+        """an include file in a sub-directory that itself includes files lying next to it
+        (only from the top level of the main file: which directory counts inside an expansion
+        is not stated by the manual)"""
+        rng = self.rng
+        d = 'sub%d' % self.uid()
+        fname = 'inc%d.inc' % self.uid()
+        content = self.data_lines([], [], 2)
+        if rng.random() < 0.7:
+            inner = 'inc%d.inc' % self.uid()
+            self.files['%s/%s' % (d, inner)] = '\n'.join(self.data_lines([], [], 2)) + '\n'
+            content.append('\t%s\t%s' % (self.kw('include'), rng.choice(['"%s"' % inner, inner, inner[:-4]])))
+        if rng.random() < 0.7:
+            b = 'bin%d.bin' % self.uid()
+            n = rng.choice([2, 4, 10])
+            self.bins['%s/%s' % (d, b)] = bytes(rng.randrange(256) for _ in range(n))
+            content.append('\t%s\t"%s"' % (self.kw('binclude'), b))
+        content += ['\t%s\t2' % self.kw('rept')] + self.data_lines([], [], 1) + ['\t%s' % self.kw('endm')]
+        self.files['%s/%s' % (d, fname)] = '\n'.join(content) + '\n'
+        self.feat.add('include-from-subdirectory')
+        return ['\t%s\t"%s/%s"' % (self.kw('include'), d, fname)]
+
     def c_include(self, depth, params, visible, ctx):
         rng = self.rng
+        if ctx.get('private') is None and not ctx.get('in_include') and rng.random() < 0.3:
+            return self.sub_include()
         fname = 'inc%d' % self.uid()
         c = dict(ctx)
         c['in_include'] = ctx.get('in_include', 0) + 1
         c['macro_level'] = False
         # the text of the file is not part of the enclosing body: it sees no parameters
         content = self.body(depth, [], visible, c)
-        if not ctx.get('in_body') and rng.random() < 0.4:
+        if not ctx.get('in_body') and not ctx.get('dead') and rng.random() < 0.4:
             # a macro defined in the include file and used after it
             m = self.def_macro(visible)
             content = m + content
@@ -624,12 +679,25 @@ class Gen:
         if self.bop is None:
             n += n % 2
         data = bytes(rng.randrange(256) for _ in range(n))
-        self.bins[fname] = data
         self.feat.add('binclude')
         self.budget -= n // 8
         args = [fname if rng.random() < 0.5 else '"%s"' % fname]
         r = rng.random()
         step = 2 if self.bop is None else 1
+        z = rng.random()
+        if z < 0.06 or ctx.get('zero'):
+            # nothing to include: empty file / offset at the end of the file / length 0
+            self.feat.add('binclude-zero-bytes')
+            k = rng.randrange(3)
+            if k == 0:
+                data = b''
+            elif k == 1:
+                args.append(str(n))
+            else:
+                args += [str(rng.randrange(0, n // step + 1) * step), '0']
+            self.bins[fname] = data
+            return ['\t%s\t%s' % (self.kw('binclude'), ','.join(args))]
+        self.bins[fname] = data
         if r < 0.35 and n > step:
             off = rng.randrange(0, n // step) * step
             args.append(str(off))
@@ -661,7 +729,7 @@ class Gen:
             np_ = rng.randrange(8, 14)
         else:
             np_ = rng.randrange(14, 21)
-        kind = force or rng.choice(['plain'] * 6 + ['irp', 'shiftrec', 'shift', 'rec', 'argcount', 'attr', 'glob', 'override'])
+        kind = force or rng.choice(['plain'] * 6 + ['irp', 'shiftrec', 'shift', 'rec', 'argcount', 'attr', 'glob', 'override', 'definer'])
         if kind == 'override' and self.overridden:
             kind = 'plain'
         if kind == 'attr' and not self.has_attr:
@@ -689,7 +757,7 @@ class Gen:
         if kind == 'rec':
             m.params[0].typ = 'cnt'
         # defaults
-        if kind in ('plain', 'attr', 'glob', 'rec', 'override'):
+        if kind in ('plain', 'attr', 'glob', 'rec', 'override', 'definer'):
             for p in m.params[1 if kind == 'rec' else 0:]:
                 if rng.random() < 0.3:
                     p.default = self.default_for(p.typ)
@@ -755,6 +823,18 @@ class Gen:
                 m.uses_attr = True
                 body.append('\tdc.%s\t%s' % (rng.choice(['ATTRIBUTE', 'attribute', 'Attribute']), self.operand(m.params, vis)))
                 self.feat.add('attribute')
+            if kind == 'definer':
+                # a macro that defines another macro: its parameters are inserted into the inner definition as well
+                m.once = True
+                iname = 'mi%d' % self.uid()
+                inames = self.take_names(vis, rng.randrange(0, 4))
+                iparams = [Param(nm, rng.choice(['num', 'num', 'sym'])) for nm in inames]
+                body.append('%s\t%s\t%s' % (iname, self.kw('macro'), ','.join(inames)))
+                body += self.data_lines(m.params + iparams, vis + inames, 2)
+                body.append('\t%s' % self.kw('endm'))
+                for _ in range(rng.randrange(1, 3)):
+                    body.append('\t%s\t%s' % (iname, ','.join(self.arg_for(q) for q in iparams)))
+                self.feat.add('macro-defined-by-macro')
             if kind == 'override':
                 body.append('\t!nop')
             body += self.body(1, m.params, vis, ctx)
@@ -773,7 +853,7 @@ class Gen:
         return lines
 
     def call_any(self, ctx):
-        ms = [m for m in self.macros if not (m.once and (m.calls or ctx.get('in_body')))]
+        ms = [m for m in self.macros if not (m.once and (m.calls or ctx.get('in_body') or ctx.get('dead')))]
         if not ms:
             return None
         m = self.rng.choice(ms[-6:])
@@ -860,6 +940,12 @@ class Gen:
             self.glabels.append(lab)
             self.feat.add('label-on-call')
             lab = lab + (':' if rng.random() < 0.5 else '')
+        elif rng.random() < 0.08 and ctx.get('in_body') and ctx.get('private'):
+            # a private label that labels a macro call inside a body
+            lab = 'lb%d' % self.uid()
+            out.append(self.word_stmt([self.rc(lab)]))
+            self.feat.add('private-label-on-call')
+            lab = lab + ':'
         out.append('%s\t%s%s\t%s' % (lab, name, attr, ','.join(args)))
         return out
 
@@ -884,6 +970,8 @@ class Gen:
                 ms = [m for m in self.macros if not (m.once and m.calls)]
                 if ms:
                     main += self.call(rng.choice(ms[-4:]), top)
+            elif r < 0.78:
+                main += self.if_wrapped(0, [], [], top)
             else:
                 main += self.construct(1, [], [], top)
             if rng.random() < 0.3:
@@ -905,6 +993,9 @@ class Gen:
         head = ['\tcpu\t%s' % self.cpu]
         if self.cpu == '68000':
             head.append('\tpadding\toff')
+        if rng.random() < 0.04:
+            # including nothing is also legal at address 0
+            head += self.c_binclude(1, [], [], {'zero': True})
         for k, v in self.equs.items():
             head.append('%s\tequ\t%d' % (k, v))
         for name in self.pre_refs:
@@ -1160,6 +1251,14 @@ def reduce_case(ctx, files, bins, cs, cpu, first, budget=120):
             if op and op.upper() in _OPEN:
                 us = _units(cur[pos:new_hi])
                 end = pos + us[0][1]
+                if end - pos >= 2 and op.upper() != 'MACRO' and tries[0] < budget:
+                    # unwrap: keep the body, drop the construct around it
+                    cand = dict(files)
+                    cand[fname] = '\n'.join(cur[:pos] + cur[pos + 1:end] + cur[end + 1:])
+                    if attempt(cand):
+                        files[fname] = cand[fname]
+                        new_hi -= 2
+                        continue
                 if end - pos >= 2:
                     inner_hi = reduce_span(fname, pos + 1, end)
                     new_hi -= (end - inner_hi)
@@ -1236,8 +1335,10 @@ def reachable(files):
             _, op, _, args = macroexp.split_line(ln)
             if op and op.upper() == 'INCLUDE':
                 n = args.strip().strip('"')
-                if '.' not in n:
+                if '.' not in n.rsplit('/', 1)[-1]:
                     n += '.inc'
+                if '/' in f:
+                    n = f.rsplit('/', 1)[0] + '/' + n
                 if n in files and n not in seen:
                     seen.append(n)
     return {f: files[f] for f in seen}
@@ -1368,6 +1469,8 @@ def run_case(case, ctx):
             out.sets['while_passes'].add(e[1])
         elif e[0] == 'irpc':
             out.sets['irpc_lengths'].add(e[1])
+    out.sets['macro_parameter_numbers_substituted'].update(ex.param_numbers)
+    out.sets['implicit_parameters_substituted'].update(ex.implicit_used)
     out.sets['targets'].add(g.cpu + ('/-U' if g.cs else ''))
     out.sets['features'].update(g.feat)
     executed = sorted(k for k in ex.stats if not k.endswith('_passes') and k not in ('if_evaluated',))
